@@ -66,4 +66,14 @@ CHECKS["C08"] = {
          "TLC additionally validates each trace (ExactlyOne, NoEarlyAck over split pieces, DlqOnce, DlqOriginal, "
          "WriteDerived, PositionImmutable, AckPrefix).",
  "note": DP_NOTE, "technique": "TLC-enumerated case space replayed on the real engine + TLC trace validation"}
+CHECKS["C09"] = {
+ "text": "Both real engines are fed one ill-formed plugin reply per scenario (28 shape classes: processors returning "
+         "fewer/zero/more results, unknown types, changed/empty positions; destinations answering with empty, surplus, "
+         "out-of-order or wrong-position acks or a broken stream; sources with empty/duplicate positions or failing "
+         "reads; Open/Teardown errors of every plugin kind) in child processes; TLC validates every trace: NoPanic, NoHang "
+         "(bounded), NoEarlyAck. CondMerge.tla is enumerated by TLC (every n, match mask, plugin output vector, length "
+         "deviation) and every case is replayed through the real RunnableProcessor.Process with a real condition "
+         "template and compared position by position.",
+ "note": DP_NOTE + " A plugin that never answers is not generated (not an engine hang).",
+ "technique": "TLC-enumerated case space + fault enumeration on the real engines, traces validated by TLC"}
 NOT_APPLICABLE = {}
